@@ -128,6 +128,23 @@ def run(ctx):
             lf2 = q.linear(rcv[0].args[0], sym=lambda x: 'W' if q.refers_to_decl(x, sr.param_ids[0]) else x.text())
             okl = lf2.t.get('W') == 1 and len(lf2.t) == 2 and q.same_expr(rcv[0].args[1], subs[0].children[0]) and \
                 any(k == adds[0].children[0].strip(casts=True).text() for k in lf2.t)
+        if not okl and len(rcv) == 1 and adds and not subs:
+            # second idiom: one counter `done`; receive(where + done, total - done); done += received  (total = the size parameter or a const copy of it)
+            def sy(x):
+                s_ = x.strip(casts=True)
+                if q.refers_to_decl(x, sr.param_ids[0]):
+                    return 'W'
+                if q.refers_to_decl(x, sr.param_ids[1]):
+                    return 'SZ'
+                if s_.k == 'DeclRefExpr' and s_.decl.get('sc') == 'local':
+                    ds = q.local_defs(sr, s_.declid)
+                    if len(ds) == 1 and ds[0][1] == 'init' and ds[0][2] is not None and q.refers_to_decl(ds[0][2], sr.param_ids[1]):
+                        return 'SZ'
+                return x.text()
+            ld, ln = q.linear(rcv[0].args[0], sym=sy), q.linear(rcv[0].args[1], sym=sy)
+            done = [k for k in ld.t if k not in ('W',)]
+            okl = ld.t.get('W') == 1 and len(done) == 1 and ld.t[done[0]] == 1 and ld.c == 0 and dict(ln.t) == {'SZ': 1, done[0]: -1} and ln.c == 0 and \
+                adds[0].children[0].strip(casts=True).text() == done[0]
     ctx.check(okl, 'R15.1', R + 'sockRead#loop', sr.loc, 'sockRead receives at `where + done` at most `remaining` bytes and updates both by what it got')
 
     # ---------------- R15.2
